@@ -2,6 +2,7 @@ package rules
 
 import (
 	"fmt"
+	"go/token"
 	"go/types"
 	"sort"
 	"strings"
@@ -426,4 +427,256 @@ func runR05_9(c *kit.Ctx) {
 		})
 	}
 	c.Floor("R05.9", "verifier starts in handlers that read Allocator.HasMissing", n, 1)
+}
+
+// ---- R19.4 an HTTP tracker is built with the caller's user agent -----------
+//
+// The private / public user agent is chosen by the caller of TrackerManager.Get
+// per torrent. Seeded: Get cached HTTPTracker objects per announce URL; the cache
+// key ignored the user agent, so a private torrent added after a magnet link with
+// the same tracker announced with the public client identity.
+//
+// Rule: every HTTP tracker that TrackerManager.Get returns is the result of a
+// call to httptracker.New made in that invocation with Get's own user-agent
+// parameter among the arguments.
+
+func init() { registerExtra("C19", runR19_4) }
+
+func runR19_4(c *kit.Ctx) {
+	k := newKeyer()
+	get := c.Func("internal/trackermanager", "(*TrackerManager).Get")
+	newHTTP := c.FuncObj("internal/tracker/httptracker", "New")
+	tHTTP := c.Named("internal/tracker/httptracker", "HTTPTracker")
+	var ua *ssa.Parameter
+	for _, p := range get.Params {
+		if b, ok := p.Type().Underlying().(*types.Basic); ok && b.Kind() == types.String && strings.Contains(strings.ToLower(p.Name()), "agent") {
+			ua = p
+		}
+	}
+	if ua == nil {
+		c.Unknown("R19.4", "TrackerManager.Get/user agent parameter", get.Pos(), "TrackerManager.Get has no string parameter for the user agent")
+		return
+	}
+	n := 0
+	var check func(v ssa.Value, ret *ssa.Return, seen map[ssa.Value]bool)
+	check = func(v ssa.Value, ret *ssa.Return, seen map[ssa.Value]bool) {
+		if seen[v] {
+			return
+		}
+		seen[v] = true
+		switch x := v.(type) {
+		case *ssa.MakeInterface:
+			check(x.X, ret, seen)
+			return
+		case *ssa.ChangeInterface:
+			check(x.X, ret, seen)
+			return
+		case *ssa.Phi:
+			for _, e := range x.Edges {
+				check(e, ret, seen)
+			}
+			return
+		case *ssa.Const:
+			return
+		case *ssa.UnOp:
+			// result cell of a function with defers: judge everything stored into it
+			if cell, ok := x.X.(*ssa.Alloc); ok && x.Op == token.MUL && cell.Referrers() != nil {
+				for _, r := range *cell.Referrers() {
+					if st, ok := r.(*ssa.Store); ok && st.Addr == ssa.Value(cell) {
+						check(st.Val, ret, seen)
+					}
+				}
+				return
+			}
+		}
+		if derefNamed(v.Type()) != tHTTP {
+			return
+		}
+		n++
+		ok := false
+		if call, isCall := v.(*ssa.Call); isCall && kit.CallsAny(call, newHTTP) {
+			for _, a := range call.Call.Args {
+				if a == ssa.Value(ua) {
+					ok = true
+				}
+			}
+		}
+		c.Check(ok, "R19.4", k.key(get, "returned HTTP tracker"), posOf(ret),
+			"the HTTP tracker returned is built by httptracker.New in this call with the caller's user agent", "TrackerManager.Get can return an HTTP tracker that was not built in this call with the caller's user agent ("+kit.Canon(v).String()+"): a private torrent announces with whatever identity the first requester of that URL had")
+	}
+	for _, r := range returnsOf(get) {
+		if len(r.Results) > 0 {
+			check(r.Results[0], r, map[ssa.Value]bool{})
+		}
+	}
+	c.Floor("R19.4", "HTTP trackers returned by TrackerManager.Get", n, 1)
+}
+
+// ---- R20.10 fields of a worker written by the event loop ------------------
+//
+// A worker object (a type started with `go x.Run`) whose method, called from
+// the event loop while the worker runs, stores a plain field that the worker's
+// own goroutine also accesses needs a common mutex of the object at both sites
+// (or the field must be an atomic / channel / mutex itself). Seeded:
+// DHTAnnouncer.NeedMorePeers stored needMorePeers without the mutex that the
+// periodical announcer's twin uses.
+
+func init() { registerExtra("C20", runR20_10) }
+
+func runR20_10(c *kit.Ctx) {
+	k := newKeyer()
+	run := c.Func("torrent", "(*torrent).run")
+	tT := c.Named("torrent", "torrent")
+	sT := c.Named("torrent", "Session")
+	loopCtx := c.Reach([]*ssa.Function{run}, false, nil)
+	// worker types and their Run contexts
+	type worker struct {
+		t   *types.Named
+		ctx map[*ssa.Function]bool
+	}
+	workers := map[*types.Named]*worker{}
+	for _, fn := range c.ModuleFunctions() {
+		kit.Instrs(fn, func(ins ssa.Instruction) {
+			g, ok := ins.(*ssa.Go)
+			if !ok {
+				return
+			}
+			callee := g.Call.StaticCallee()
+			if callee == nil || callee.Signature.Recv() == nil || callee.Blocks == nil {
+				return
+			}
+			w := derefNamed(callee.Signature.Recv().Type())
+			if w == nil || w == tT || w == sT || w.Obj().Pkg() == nil || !kit.InModule(w.Obj().Pkg().Path()) {
+				return
+			}
+			wk := workers[w]
+			if wk == nil {
+				wk = &worker{t: w, ctx: map[*ssa.Function]bool{}}
+				workers[w] = wk
+			}
+			for f := range c.Reach([]*ssa.Function{callee}, false, func(f *ssa.Function) bool { return kit.FnPkgPath(f) != w.Obj().Pkg().Path() }) {
+				wk.ctx[f] = true
+			}
+		})
+	}
+	fieldOfW := func(ins ssa.Instruction, w *types.Named) (*types.Var, bool, bool) {
+		// returns (field, isWrite, ok) for direct accesses x.f with x of type W
+		switch x := ins.(type) {
+		case *ssa.Store:
+			if fa, ok := x.Addr.(*ssa.FieldAddr); ok && derefNamed(fa.X.Type()) == w {
+				return derefStructT(fa.X.Type()).Field(fa.Field), true, true
+			}
+		case *ssa.UnOp:
+			if fa, ok := x.X.(*ssa.FieldAddr); ok && x.Op == token.MUL && derefNamed(fa.X.Type()) == w {
+				return derefStructT(fa.X.Type()).Field(fa.Field), false, true
+			}
+		}
+		return nil, false, false
+	}
+	underMutexOf := func(fn *ssa.Function, ins ssa.Instruction, w *types.Named) map[*types.Var]bool {
+		held := map[*types.Var]bool{}
+		st := w.Underlying().(*types.Struct)
+		for i := 0; i < st.NumFields(); i++ {
+			m := st.Field(i)
+			if !strings.HasPrefix(m.Type().String(), "sync.") {
+				continue
+			}
+			if mutexFlow(c, fn, m).Before(ins) {
+				held[m] = true
+			}
+		}
+		return held
+	}
+	n := 0
+	var ws []*worker
+	for _, wk := range workers {
+		ws = append(ws, wk)
+	}
+	sort.Slice(ws, func(i, j int) bool { return ws[i].t.Obj().Name() < ws[j].t.Obj().Name() })
+	for _, wk := range ws {
+		w := wk.t
+		// loop-side stores (methods of W reachable from the event loop, outside the worker's own context)
+		type acc struct {
+			fn  *ssa.Function
+			ins ssa.Instruction
+		}
+		loopStores := map[*types.Var][]acc{}
+		var lfns []*ssa.Function
+		for f := range loopCtx {
+			if f.Blocks != nil && !wk.ctx[f] && f.Signature.Recv() != nil && derefNamed(f.Signature.Recv().Type()) == w {
+				lfns = append(lfns, f)
+			}
+		}
+		sort.Slice(lfns, func(i, j int) bool { return kit.FuncName(lfns[i]) < kit.FuncName(lfns[j]) })
+		for _, f := range lfns {
+			// constructors and methods that start the goroutine run before it exists
+			starts := false
+			kit.Instrs(f, func(ins ssa.Instruction) {
+				if _, ok := ins.(*ssa.Go); ok {
+					starts = true
+				}
+			})
+			if starts {
+				continue
+			}
+			kit.Instrs(f, func(ins ssa.Instruction) {
+				if fld, isW, ok := fieldOfW(ins, w); ok && isW && !syncType(fld.Type()) {
+					loopStores[fld] = append(loopStores[fld], acc{f, ins})
+				}
+			})
+		}
+		if len(loopStores) == 0 {
+			continue
+		}
+		var flds []*types.Var
+		for fld := range loopStores {
+			flds = append(flds, fld)
+		}
+		sort.Slice(flds, func(i, j int) bool { return flds[i].Name() < flds[j].Name() })
+		for _, fld := range flds {
+			// worker-side accesses
+			var wacc []acc
+			var wfns []*ssa.Function
+			for f := range wk.ctx {
+				if f.Blocks != nil {
+					wfns = append(wfns, f)
+				}
+			}
+			sort.Slice(wfns, func(i, j int) bool { return kit.FuncName(wfns[i]) < kit.FuncName(wfns[j]) })
+			for _, f := range wfns {
+				kit.Instrs(f, func(ins ssa.Instruction) {
+					if g, _, ok := fieldOfW(ins, w); ok && g == fld {
+						wacc = append(wacc, acc{f, ins})
+					}
+				})
+			}
+			if len(wacc) == 0 {
+				continue
+			}
+			n++
+			// a mutex held at every loop-side store and every worker-side access
+			common := map[*types.Var]int{}
+			total := 0
+			for _, a := range append(append([]acc{}, loopStores[fld]...), wacc...) {
+				total++
+				for m := range underMutexOf(a.fn, a.ins, w) {
+					common[m]++
+				}
+			}
+			ok := false
+			for _, cnt := range common {
+				if cnt == total {
+					ok = true
+				}
+			}
+			key := w.Obj().Name() + "." + fld.Name() + " written from the event loop"
+			s0 := loopStores[fld][0]
+			if ok {
+				c.OK("R20.10", key, posOf(s0.ins), "%s.%s is stored by %s (event loop) and accessed by the worker goroutine, always under the same mutex of the object", w.Obj().Name(), fld.Name(), kit.FuncName(s0.fn))
+			} else {
+				c.Bad("R20.10", k.key(s0.fn, key), posOf(s0.ins), "%s stores %s.%s from the event loop while the worker goroutine (%s) accesses it, and no mutex of the object is held at all of these sites: unsynchronised access from two goroutines", kit.FuncName(s0.fn), w.Obj().Name(), fld.Name(), kit.FuncName(wacc[0].fn))
+			}
+		}
+	}
+	c.Stats["worker fields written from the event loop"] = n
 }
